@@ -28,7 +28,7 @@ TECH = {"C19": "explicit-state exploration with every state re-executed from scr
         "C18": "explicit-state breadth-first search over operation sequences of the real raftLog/MemoryStorage against an abstract log"}
 props["C15"] = ("Bounded convergence: every state discovered by the BFS of small scenarios (fresh cluster, failover, snapshot pending, membership changes in flight; sync/async/PreVote+CheckQuorum) and every end state of all scripted D-DFS executions is used as a start state of a deterministic fault-free suffix (heal, stop removed nodes, report snapshot transfers, deliver everything, tick every node, rotating election-timeout draws); within 40 election timeouts there must be exactly one leader, a fresh proposal applied everywhere, equal logs/commit/applied, no auto-leave joint config, no transfer, no pending snapshot, nothing unstable. This is bounded liveness from every explored state, not 'eventually'.", "§7 C15")
 props["C16"] = ("Shadow accounting independent of the library's Inflights on every leader step: size of every produced MsgApp, number and bytes of outstanding entry-bearing appends per streaming follower, silence towards followers awaiting a snapshot, and the uncommitted-size quota at every proposal (evaluated where the library's estimate is exact); limits 0/1/tiny/unlimited, entries smaller and larger than the limits.", "§7 C16")
-props["C17"] = ("Tick-driven scripted scenarios (ElectionTick 3, per-node pinned timeouts, extra ticks as deviations) plus dueling BFS with PreVote: candidate transitions need a delivered pre-vote joint majority for that very term (or MsgTimeoutNow); MsgPreVote never changes term/vote; in-lease vote requests are ignored (harness tick count >= raft's); a CheckQuorum leader is gone within 2 election timeouts of last quorum contact.", "§7 C17")
+props["C17"] = ("Tick-driven scripted scenarios (ElectionTick 3, per-node pinned timeouts, extra ticks as deviations) plus dueling BFS with PreVote: candidate transitions need a delivered pre-vote joint majority for that very term (or MsgTimeoutNow); MsgPreVote never changes term/vote; in-lease vote requests are ignored (harness tick count >= raft's); a CheckQuorum leader is gone within 2 election timeouts of last quorum contact. That last clause fails on the unchanged tree when the leader acts on leadership-transfer requests while cut off (known finding KF-3: the check prints KNOWN-FINDING for exactly that signature and reports any leader that also outlives two election timeouts counted from its last transfer request).", "§7 C17")
 props["C20"] = ("Every log of every node is compared, whenever it changes, with the harness's own account of proposals: unknown payloads, multiplicities above the number of deliveries to an accepting leader, entries after ErrProposalDropped, empty entries beyond one no-op per term plus neutralisable conf proposals, auto-leave entries outside joint auto-leave configs, batch adjacency/order, bit-for-bit type and payload at the accepting leader.", "§7 C20")
 NODE = " The goroutine/channel front end (node.go) is covered by a second explorer: inside a testing/synctest bubble every sequence of client operations up to a length bound (from roots: fresh, leader, follower, single voter, leader removing itself, follower being removed; sync and async storage; PreVote+CheckQuorum) is run against a real raft.Node, one operation at a time, and after every operation the state behind the Node, everything it handed out and every return value must equal a reference RawNode driven by the same operations."
 for _p in ("C05", "C10", "C20"):
